@@ -20,11 +20,13 @@ Definition WILD : seg := 0%N.              (* the segment text "<*>" *)
 Inductive pseg := PLit (s : seg) | PWild.
 Definition pattern := list pseg.
 
-Inductive kind := KInt | KU32 | KStr | KBool | KList (* []string *) | KInternal
+Inductive kind := KInt | KU32 | KStr | KBool | KList (* []string *)
+                | KEntry (* map entry holding a pointer to a struct, set with a pointer to an all-zero struct *) | KInternal
                 | KAny.   (* a leaf of a plugin namespace: in a candidate (a JSON round trip of running) the
                              plugin config is an untyped map, so any value is stored as it is *)
 (* the Go value handed to Set: int, uint32, string, bool *)
-Inductive value := VInt (z : Z) | VU32 (z : Z) | VStr (s : list N) | VBool (b : bool) | VList (l : list (list N)).
+Inductive value := VInt (z : Z) | VU32 (z : Z) | VStr (s : list N) | VBool (b : bool) | VList (l : list (list N))
+                 | VPtr.   (* pointer to an all-zero struct, e.g. &protocols.BGPNetwork{} *)
 (* a stored scalar; the zero value of every kind is represented by absence *)
 Inductive sval := SInt (z : Z) | SStr (s : list N) | SBool (b : bool) | SList (l : list (list N)).
 
@@ -33,7 +35,9 @@ Record hspec := {
   h_kind : kind;
   h_conts : list nat;      (* prefix lengths that are JSON objects created on the way to the leaf *)
   h_deps : list nat;       (* Dependencies(): indices into the registry *)
-  h_frr : bool             (* Apply marks "routing daemon reload needed" *)
+  h_frr : bool;            (* Apply marks "routing daemon reload needed" *)
+  h_typed : bool           (* the pattern has a typed wildcard (<*:ip>, <*:prefix>): map keys are encoded in
+                              paths, but the walker builds its paths from the raw keys and never finds the handler *)
 }.
 Definition registry := list hspec.
 
@@ -107,7 +111,7 @@ Definition get_handler (reg : registry) (p : path) : option nat :=
   | None => find_idx (fun h => match_pattern (h_pat h) p) reg 0
   end.
 Definition dummy_h : hspec :=
-  {| h_pat := []; h_kind := KInternal; h_conts := []; h_deps := []; h_frr := false |}.
+  {| h_pat := []; h_kind := KInternal; h_conts := []; h_deps := []; h_frr := false; h_typed := false |}.
 Definition hget (reg : registry) (i : nat) : hspec := nth i reg dummy_h.
 
 (* ---------- strconv on byte strings ---------- *)
@@ -175,6 +179,7 @@ Definition native_of (k : kind) (v : value) : option (option sval) :=
   | KStr, VStr s => Some (norm_str s)
   | KBool, VBool b => Some (norm_bool b)
   | KList, VList l => Some (match l with [] => None | _ => Some (SList l) end)
+  | KEntry, VPtr => Some None               (* the entry is a container; nothing is stored at the path itself *)
   | _, _ => None
   end.
 (* setValueInConfig's final assignment incl. convertValue: None = "cannot convert" *)
@@ -256,15 +261,24 @@ Record faults := { f_apply : nat; f_rollback : nat; f_test : bool; f_reload : na
 Definition no_faults : faults :=
   {| f_apply := 0; f_rollback := 0; f_test := false; f_reload := 0; f_startup := false; f_version := false |}.
 
+Inductive bstep := BEdit (add : store) | BSet (p : path) (v : value).
+
 Inductive op :=
 | OCreate | OClose (id : N) | ODelete (id : N)
 | OSet (id : N) (p : path) (v : value) (vfail : bool)
-| OTick (d : N) | ORollback (ver : N) | OCommit (id : N) (f : faults).
+| OTick (d : N) | ORollback (ver : N) | OCommit (id : N) (f : faults)
+(* LoadConfig(id, cfg) where cfg = the session's candidate with the subtree [drop] replaced by [add];
+   [emitted] = the order in which the walker emitted changes (Go map iteration order: taken from the
+   implementation and checked for admissibility) *)
+| OLoad (id : N) (drop : path) (add : store) (emitted : list (path * value))
+(* LoadStartupConfig + ApplyLoadedConfig of a start-up configuration [cfg]; [steps] = what
+   ProcessSubscriberGroups / ProcessCGNATPools do for it (in-place edits of the object and Sets) *)
+| OBoot (cfg : store) (steps : list bstep) (emitted : list (path * value)) (f : faults).
 
 Inductive res :=
 | RId (n : N) | ROk | RLocked | RNoSession | RNoHandler | RInvalid | RSetFail | RCycle | RDepMissing
 | RDepErr | RNoChanges | RPrecommit | RApplyFail | RFrrTest | RFrrReload | RStartupSave | RVersionSave
-| RBadVersion | RBadVerType | RNotImpl | RModelFuel.
+| RBadVersion | RBadVerType | RNotImpl | RModelFuel | RInadmissible | RBootErr | RBootVersion.
 
 (* the recorded call stream: handler Apply / Rollback calls with their outcome, routing-daemon calls *)
 Inductive ev :=
@@ -312,6 +326,8 @@ Definition write_obj (st : state) (o : oid) (c : store) : state :=
 Definition exists_in (s : store) (h : hspec) (p : path) : bool :=
   match h_kind h with
   | KInternal => false                         (* "field not found": treated as nil *)
+  | KEntry => false                            (* <*:prefix> keys are hex in the path; getValueFromConfig only
+                                                  tries DecodeIP/DecodeMAC on a missing key: never found *)
   | _ => forallb (fun n => has_cont s (firstn n p)) (h_conts h)
   end.
 Definition old_value (s : store) (h : hspec) (p : path) : option (option sval) :=
@@ -695,6 +711,127 @@ Definition do_rollback (st0 : state) (ver : N) : state * res :=
            next_id := (next_id st + 1)%N; next_oid := (next_oid st + 1)%N; vmem := vmem st; vfiles := vfiles st |},
         RBadVerType).
 
+(* ---------- LoadConfig (conf.go:779-808) and the walker (walk.go) ---------- *)
+Definition value_eqb (a b : value) : bool :=
+  match a, b with
+  | VInt x, VInt y => Z.eqb x y
+  | VU32 x, VU32 y => Z.eqb x y
+  | VStr x, VStr y => path_eqb x y
+  | VBool x, VBool y => Bool.eqb x y
+  | VList x, VList y => (Nat.eqb (length x) (length y)) && forallb (fun p => path_eqb (fst p) (snd p)) (combine x y)
+  | VPtr, VPtr => true
+  | _, _ => false
+  end.
+Definition pv_eqb (a b : path * value) : bool := path_eqb (fst a) (fst b) && value_eqb (snd a) (snd b).
+Fixpoint remove_one (x : path * value) (l : list (path * value)) : option (list (path * value)) :=
+  match l with
+  | [] => None
+  | y :: r => if pv_eqb x y then Some r else match remove_one x r with Some r' => Some (y :: r') | None => None end
+  end.
+Fixpoint perm_b (a b : list (path * value)) : bool :=
+  match a with
+  | [] => match b with [] => true | _ => false end
+  | x :: a' => match remove_one x b with Some b' => perm_b a' b' | None => false end
+  end.
+(* what emitStructFields emits for a configuration: every non-zero field whose path has a handler, with
+   the typed field value (a []string field: one change per element); every map entry whose path has a
+   handler.  The ORDER is struct order / Go map order and is not determined here. *)
+Definition emit_leaf (reg : registry) (e : path * sval) : list (path * value) :=
+  match get_handler reg (fst e) with
+  | None => []
+  | Some hi =>
+    if h_typed (hget reg hi) then [] else
+    match h_kind (hget reg hi), snd e with
+    | KInt, SInt z => [(fst e, VInt z)]
+    | KU32, SInt z => [(fst e, VU32 z)]
+    | KStr, SStr x => [(fst e, VStr x)]
+    | KBool, SBool b => [(fst e, VBool b)]
+    | KList, SList l => map (fun x => (fst e, VStr x)) l
+    | _, _ => []
+    end
+  end.
+Definition expected_emit (reg : registry) (cfg : store) : list (path * value) :=
+  flat_map (emit_leaf reg) (leaves cfg).     (* map entries under typed wildcards (KEntry) are never emitted *)
+
+(* cfg := candidate with the subtree under [drop] removed and the entries of [add] put in *)
+Definition graft (s : store) (drop : path) (add : store) : store :=
+  let keep p := negb (is_prefix_b drop p) in
+  {| leaves := filter (fun e => keep (fst e)) (leaves s) ++ leaves add;
+     conts := filter keep (conts s) ++ conts add |}.
+Definition merge (s : store) (add : store) : store :=
+  fold_left (fun st e => set_leaf st (fst e) (Some (snd e))) (leaves add)
+            (fold_left add_cont (conts add) s).
+
+(* LoadConfig proper: the session's changes are REPLACED by what the walker emits, the candidate becomes
+   the caller's object [o] with contents [cfg] *)
+Definition load_core (reg : registry) (st0 : state) (id : N) (cfg : store) (o : oid)
+           (emitted : list (path * value)) : state * res :=
+  let st := expire st0 in
+  match find_session (sessions st) id with
+  | None => (st, RNoSession)
+  | Some s =>
+    if negb (perm_b emitted (expected_emit reg cfg))
+    then (set_sessions st (put_session (sessions st) (touch s)) (lock st), RInadmissible)
+    else
+      (set_sessions st (put_session (sessions st)
+         {| s_id := s_id s; s_cand := cfg; s_oid := o;
+            s_changes := map (fun e => {| c_path := fst e; c_old := None; c_new := snd e |}) emitted;
+            s_idle := 0 |}) (lock st), ROk)
+  end.
+Definition bump_oid (st : state) : state :=
+  {| running := running st; running_oid := running_oid st; startup := startup st; startup_oid := startup_oid st;
+     sfile := sfile st; frr := frr st; sessions := sessions st; lock := lock st; next_id := next_id st;
+     next_oid := (next_oid st + 1)%N; vmem := vmem st; vfiles := vfiles st |}.
+Definition do_load (reg : registry) (st0 : state) (id : N) (drop : path) (add : store)
+           (emitted : list (path * value)) : state * res :=
+  match find_session (sessions (expire st0)) id with
+  | None => (expire st0, RNoSession)
+  | Some s => load_core reg (bump_oid st0) id (graft (s_cand s) drop add) (next_oid st0 + 1)%N emitted
+  end.
+
+(* ---------- LoadStartupConfig + ApplyLoadedConfig (startup.go) ---------- *)
+Definition obj_store (st : state) (o : oid) : store :=
+  if N.eqb (running_oid st) o then running st
+  else match find (fun s => N.eqb (s_oid s) o) (sessions st) with Some s => s_cand s | None => startup st end.
+Fixpoint boot_steps (var : variant) (reg : registry) (st : state) (id : N) (o : oid) (steps : list bstep)
+  : state * bool :=
+  match steps with
+  | [] => (st, true)
+  | BEdit add :: r => boot_steps var reg (write_obj st o (merge (obj_store st o) add)) id o r   (* in place *)
+  | BSet p v :: r =>
+    match do_set var reg st id p v false with
+    | (st', ROk) => boot_steps var reg st' id o r
+    | (st', _) => (st', false)
+    end
+  end.
+Definition do_boot (var : variant) (reg : registry) (g : guard) (st0 : state) (cfg : store)
+           (steps : list bstep) (emitted : list (path * value)) (f : faults) : state * res * list ev :=
+  let o := (next_oid st0 + 1)%N in
+  (* LoadStartupConfig: cd.startupConfig = deepCopy(cfg); ApplyLoadedConfig: cd.runningConfig = that object *)
+  let st_a := {| running := cfg; running_oid := o; startup := cfg; startup_oid := o; sfile := sfile st0;
+                 frr := frr st0; sessions := sessions st0; lock := lock st0; next_id := next_id st0;
+                 next_oid := o; vmem := vmem st0; vfiles := vfiles st0 |} in
+  match do_create st_a with
+  | (st_b, RId id) =>
+    match load_core reg st_b id cfg o emitted with         (* LoadConfig(sessionID, config): the SAME object *)
+    | (st_c, ROk) =>
+      match boot_steps var reg st_c id o steps with
+      | (st_d, true) =>
+        let '(st_e, r, evs) := do_commit var reg g st_d id f in
+        (* after a successful commit that recorded a version ApplyLoadedConfig stamps its CommitMsg and writes
+           the version file once more itself: that write failing is returned as an error of the start-up *)
+        let r' := match r with
+                  | ROk => if f_version f && negb (Nat.eqb (length (vmem st_e)) (length (vmem st_d)))
+                           then RBootVersion else ROk
+                  | _ => r end in
+        (fst (do_close st_e id), r', evs)                  (* defer CloseCandidateSession *)
+      | (st_d, false) => (fst (do_close st_d id), RBootErr, [])
+      end
+    | (st_c, r) => (fst (do_close st_c id), r, [])
+    end
+  | (st_b, r) => (st_b, r, [])
+  end.
+
 Definition step (var : variant) (reg : registry) (g : guard) (st : state) (o : op) : state * res * list ev :=
   match o with
   | OCreate => let '(s, r) := do_create st in (s, r, [])
@@ -704,7 +841,12 @@ Definition step (var : variant) (reg : registry) (g : guard) (st : state) (o : o
   | OTick d => (do_tick st d, ROk, [])
   | ORollback v => let '(s, r) := do_rollback st v in (s, r, [])
   | OCommit id f => do_commit var reg g st id f
+  | OLoad id drop add em => let '(s, r) := do_load reg st id drop add em in (s, r, [])
+  | OBoot cfg steps em f => do_boot var reg g st cfg steps em f
   end.
+
+(* the operations a northbound client performs (no LoadConfig, no start-up) *)
+Definition plain (o : op) : bool := match o with OLoad _ _ _ _ | OBoot _ _ _ _ => false | _ => true end.
 
 Fixpoint run (var : variant) (reg : registry) (g : guard) (st : state) (ops : list op) : state :=
   match ops with
